@@ -638,3 +638,118 @@ def run(rep: Report, prog: Program, tier: str) -> None:
         rep.fail(mk_finding(prog, PROP, "C19-LATCH", istop, sets[0] if sets else istop.node, "the ICE transport only becomes `closed` after stop() has suspended (or start() does not refuse a closed transport): "
                             "the connection's __connect() task, which is never cancelled, can start ICE on a transport that is being torn down and is left running after close()",
                             construct="closed state latched before suspending"))
+
+    # ---------------- C19-LIVEITER: no suspension inside a loop over a live set / dict of the object
+    # (close() and the stop() methods run concurrently with negotiation calls and receive loops; if another coroutine adds to or removes from the collection while the
+    #  loop is suspended, the next step of the loop raises RuntimeError: close() ends with an exception and its future is never resolved.  Lists only grow / shrink under
+    #  the iterator and do not raise; a copy - list(...), sorted(...), tuple(...) - is safe.)
+    rep.rule("C19-LIVEITER", "loops that suspend iterate over a copy of any set / dict attribute that other methods mutate", min_instances=10)
+    MUT = {"add", "discard", "remove", "pop", "popitem", "clear", "update", "setdefault"}
+    for ci_ in prog.classes.values():
+        if ci_.module.name not in ("rtcpeerconnection", "rtcrtpreceiver", "rtcrtpsender", "rtcdtlstransport", "rtcicetransport", "rtcsctptransport", "rtcrtptransceiver"):
+            continue
+        init_ = ci_.methods.get("__init__")
+        if init_ is None:
+            continue
+        kinds: Dict[str, str] = {}
+        for n in walk_no_nested(init_.node):
+            tgt = n.targets[0] if isinstance(n, ast.Assign) else (n.target if isinstance(n, ast.AnnAssign) else None)
+            val = getattr(n, "value", None)
+            if isinstance(tgt, ast.Attribute) and unparse(tgt.value) == "self" and val is not None:
+                txt = unparse(val)
+                ann = unparse(n.annotation).lower() if isinstance(n, ast.AnnAssign) else ""
+                if txt in ("set()", "{}") or isinstance(val, (ast.Set, ast.Dict, ast.SetComp, ast.DictComp)) or txt.startswith(("dict(", "set(")) or ann.startswith(("set[", "dict[", "typing.set", "typing.dict")):
+                    kinds[tgt.attr] = "dict" if (txt == "{}" or isinstance(val, (ast.Dict, ast.DictComp)) or txt.startswith("dict(") or "dict" in ann) else "set"
+        mutated: Dict[str, List[str]] = {}
+        for m_ in ci_.methods.values():
+            for n in walk_no_nested(m_.node):
+                if isinstance(n, ast.Call) and isinstance(n.func, ast.Attribute) and n.func.attr in MUT and isinstance(n.func.value, ast.Attribute) and unparse(n.func.value.value) == "self":
+                    mutated.setdefault(n.func.value.attr, []).append(m_.name)
+                for t in (n.targets if isinstance(n, ast.Assign) else [n.target] if isinstance(n, (ast.AugAssign,)) else (n.targets if isinstance(n, ast.Delete) else [])):
+                    if isinstance(t, ast.Subscript) and isinstance(t.value, ast.Attribute) and unparse(t.value.value) == "self":
+                        mutated.setdefault(t.value.attr, []).append(m_.name)
+        for m_ in ci_.methods.values():
+            for loop in [n for n in walk_no_nested(m_.node) if isinstance(n, (ast.For, ast.AsyncFor))]:
+                if not any(isinstance(x, (ast.Await, ast.Yield, ast.YieldFrom)) for b in loop.body for x in ast.walk(b)):
+                    continue
+                it = loop.iter
+                if isinstance(it, ast.Call) and isinstance(it.func, ast.Attribute) and it.func.attr in ("items", "values", "keys") and not it.args:
+                    it = it.func.value
+                if not (isinstance(it, ast.Attribute) and unparse(it.value) == "self" and it.attr in kinds):
+                    copy_ = any(isinstance(x, ast.Attribute) and unparse(x.value) == "self" and x.attr in kinds for x in ast.walk(loop.iter))
+                    rep.ok("C19-LIVEITER", f"{m_.qualname}: suspending loop over `{unparse(loop.iter)[:60]}`" + (" (a copy of a set / dict attribute)" if copy_ else " (not a set / dict attribute)"), nontrivial=copy_)
+                    continue
+                others = sorted(set(mutated.get(it.attr, [])))
+                if others:
+                    rep.fail(mk_finding(prog, PROP, "C19-LIVEITER", m_, loop.iter, f"the loop suspends (await) while iterating directly over the {kinds[it.attr]} self.{it.attr}, which {', '.join(others[:4])} "
+                                        f"change: when one of them runs during the suspension the loop raises RuntimeError ({kinds[it.attr]} changed size during iteration) and "
+                                        f"{m_.name}() never completes", construct=f"live iteration over self.{it.attr} in {m_.name}"))
+                else:
+                    rep.ok("C19-LIVEITER", f"{m_.qualname}: self.{it.attr} is never changed after __init__")
+
+    # ---------------- C19-LATESPAWN: a task that stop() / close() cancels is not created after a suspension without re-checking the state
+    # (stop() may have run during the suspension: it found no task to cancel, so a task created afterwards is never cancelled - on a closed aioice connection the
+    #  monitor loop does not even suspend and spins for ever)
+    rep.rule("C19-LATESPAWN", "tasks held in attributes that stop() cancels are created before the method first suspends, or behind a state guard that follows the last suspension", min_instances=4)
+    SPAWN = ("ensure_future", "create_task")
+
+    def _has_await(st: ast.AST) -> bool:
+        return any(isinstance(x, (ast.Await, ast.AsyncFor, ast.AsyncWith)) for x in walk_no_nested(st)) or isinstance(st, (ast.AsyncFor, ast.AsyncWith))
+
+    def _flows_await(st: ast.AST) -> bool:
+        """a suspension inside `st` can be followed by the statement after `st` (branches that always return / raise do not count)"""
+        if isinstance(st, ast.If):
+            if any(isinstance(x, ast.Await) for x in ast.walk(st.test)):
+                return True
+            return any(not isinstance(blk[-1], (ast.Return, ast.Raise)) and any(_flows_await(b) for b in blk) for blk in (st.body, st.orelse) if blk)
+        return _has_await(st)
+
+    def _is_guard(st: ast.AST) -> bool:
+        if not isinstance(st, ast.If) or st.orelse:
+            return False
+        reads_state = any(isinstance(x, ast.Attribute) and unparse(x.value) == "self" and ("state" in x.attr.lower() or "closed" in x.attr.lower()) for x in ast.walk(st.test))
+        return reads_state and isinstance(st.body[-1], (ast.Return, ast.Raise)) and not _has_await(st)
+    for ci_ in prog.classes.values():
+        if ci_.module.name not in ("rtcpeerconnection", "rtcrtpreceiver", "rtcrtpsender", "rtcdtlstransport", "rtcicetransport", "rtcsctptransport"):
+            continue
+        # attributes that stop() / close() cancel or wait for
+        cancelled = {n.attr for name_ in ("stop", "close") if name_ in ci_.methods for n in walk_no_nested(ci_.methods[name_].node)
+                     if isinstance(n, ast.Attribute) and unparse(n.value) == "self"}
+        for m_ in ci_.methods.values():
+            from .C06 import parents_of as _parents_of
+            pm_ = _parents_of(m_.node)
+            for sp in [n for n in walk_no_nested(m_.node) if isinstance(n, ast.Assign) and isinstance(n.value, ast.Call) and unparse(n.value.func).split(".")[-1] in SPAWN
+                       and isinstance(n.targets[0], ast.Attribute) and unparse(n.targets[0].value) == "self" and n.targets[0].attr in cancelled]:
+                verdict = None          # "guard" / "await" / None (reached the start of the method)
+                cur: ast.AST = sp
+                while verdict is None and cur is not m_.node:
+                    par = pm_.get(id(cur))
+                    if par is None:
+                        break
+                    before: List[ast.AST] = []
+                    for fld in ("body", "orelse", "finalbody"):
+                        blk = getattr(par, fld, None)
+                        if isinstance(blk, list) and any(x is cur for x in blk):
+                            before = list(reversed(blk[:next(i for i, x in enumerate(blk) if x is cur)]))
+                            if isinstance(par, ast.Try) and fld in ("orelse", "finalbody"):
+                                before += list(reversed(par.body))
+                    if isinstance(par, ast.ExceptHandler):
+                        pass
+                    if isinstance(par, ast.Try) and any(cur is h for h in par.handlers):
+                        before = list(reversed(par.body))
+                    for st in before:
+                        if _is_guard(st):
+                            verdict = "guard"
+                            break
+                        if _flows_await(st):
+                            verdict = "await"
+                            break
+                    if verdict is None and isinstance(par, (ast.If, ast.While)) and _has_await(par.test):
+                        verdict = "await"
+                    cur = par
+                what = f"{m_.qualname}: self.{sp.targets[0].attr} = {unparse(sp.value)[:50]}"
+                if verdict == "await":
+                    rep.fail(mk_finding(prog, PROP, "C19-LATESPAWN", m_, sp, f"{what} runs after the method has suspended, with no state guard in between: a stop() that ran during the suspension found "
+                                        f"no task to cancel, so this task is left running after close()", construct=f"task self.{sp.targets[0].attr} created after a suspension"))
+                else:
+                    rep.ok("C19-LATESPAWN", what, sample="before the first suspension" if verdict is None else "behind a state guard that follows the last suspension")
